@@ -1,4 +1,5 @@
 import PhyModel.Drv.Core
+import PhyModel.Drv.C20
 /-! Line-protocol driver: one JSON request per line on stdin, one JSON answer per line on stdout.
 Run with `lake env lean --run Driver.lean` or as the native executable `driver`.  Requests the
 model does not understand are answered `{"err": ...}`, never defaulted.  Every handler module under
@@ -6,7 +7,8 @@ model does not understand are answered `{"err": ...}`, never defaulted.  Every h
 open Lean PhyModel PhyModel.Drv
 
 def handlers : List Handler := [
-  handleCore
+  handleCore,
+  handleC20
 ]
 
 def handle (j : Json) : Except String Json := do
